@@ -49,9 +49,12 @@ namespace rkcommon {
 
      private:
       // declaration before taskImpl: ensure initialization before task finishes
+      // NOTE: retValue must be declared (and thus constructed) before taskImpl:
+      //       the task may run - and assign retValue - while taskImpl is still
+      //       being constructed.
       std::atomic<bool> jobFinished{false};
-      detail::AsyncTaskImpl<std::function<void()>> taskImpl;
       T retValue;
+      detail::AsyncTaskImpl<std::function<void()>> taskImpl;
     };
 
   }  // namespace tasking
